@@ -2,7 +2,7 @@
 //! through a scripted PHY, scripted applications and a reactive scripted environment.
 //!
 //! Case line (input):
-//!   FDL <addr> <baud 0..10> <slot_bits> <hsa> <gap> <ttr_bits> <max_retry> <seed> <t0>
+//!   FDL <addr> <baud 0..10> <slot_bits> <hsa> <gap> <ttr_bits> <max_retry> <seed> <t0> [<min_tsdr_bits>, default 11]
 //!       { / APP[*] <decision>... } / ENV <peer/op>...
 //!   decision: `D` (decline) or `<K><da>,<pduhex|->,<dsap|->,<ssap|->[,l]`  K = N sdn-low, M sdn-high,
 //!             R srd-low, H srd-high, A sda-low, F fdl-status, C clock-value; `,l` = decline when
@@ -666,7 +666,7 @@ pub fn run_case(line: &str) -> String {
 fn run_case_inner(line: &str, shared: Arc<Mutex<String>>) -> String {
     let sections: Vec<&str> = line.split('/').map(|s| s.trim()).collect();
     let h: Vec<&str> = sections[0].split_whitespace().collect();
-    assert!(h[0] == "FDL" && h.len() == 10, "bad FDL case header");
+    assert!(h[0] == "FDL" && (h.len() == 10 || h.len() == 11), "bad FDL case header");
     let addr: u8 = h[1].parse().unwrap();
     let baud = BAUDS[h[2].parse::<usize>().unwrap()];
     let slot_bits: u16 = h[3].parse().unwrap();
@@ -676,6 +676,7 @@ fn run_case_inner(line: &str, shared: Arc<Mutex<String>>) -> String {
     let retry: u8 = h[7].parse().unwrap();
     let seed: u64 = h[8].parse().unwrap();
     let t0: i64 = h[9].parse().unwrap();
+    let min_tsdr: u8 = h.get(10).map(|x| x.parse().unwrap()).unwrap_or(11);
 
     let log = Rc::new(RefCell::new(Vec::new()));
     let mut apps = vec![];
@@ -703,6 +704,7 @@ fn run_case_inner(line: &str, shared: Arc<Mutex<String>>) -> String {
         p.gap_wait_rotations = gap;
         p.token_rotation_bits = ttr;
         p.max_retry_limit = retry;
+        p.min_tsdr_bits = min_tsdr;
         FdlActiveStation::new(p)
     });
     let fdl = match created {
@@ -856,6 +858,7 @@ struct P {
     ttr: u32,
     retry: u8,
     t0: i64,
+    tsdr: u8,
 }
 
 fn tok(da: u8, sa: u8) -> String {
@@ -890,21 +893,24 @@ impl<'a> Gen<'a> {
         };
         let slot = MIN_SLOT[baud] + *r.pick(&[0u16, 0, 0, 20, 100, 200, 1000]);
         let gap = *r.pick(&[1u8, 1, 2, 3, 5, 10, 100]);
-        let ttr = match r.below(5) {
+        let ttr = match r.below(6) {
             0 => 256,
             1 => r.range(256, 3000) as u32,
             2 => hsa as u32 * 5000,
             3 => r.range(3000, 60000) as u32,
+            4 if r.chance(1, 4) => 16_777_960,
             _ => 32436,
         };
         let t0 = *r.pick(&[0i64, 0, 1, 1000, 123_456, 5_000_000, 3_600_000_000]);
-        P { addr, baud, slot, hsa, gap, ttr, retry: r.range(1, 3) as u8, t0 }
+        let tsdr = if r.chance(2, 3) { 11 } else { *r.pick(&[12u8, 20, 60, 97, 150, 255]) };
+        let retry = *r.pick(&[1u8, 1, 2, 3, 7, 15]);
+        P { addr, baud, slot, hsa, gap, ttr, retry, t0, tsdr }
     }
 
     fn header(&mut self, p: &P) -> String {
         self.n += 1;
         let seed = self.rng.next() % 1_000_000;
-        format!("FDL {} {} {} {} {} {} {} {} {}", p.addr, p.baud, p.slot, p.hsa, p.gap, p.ttr, p.retry, seed, p.t0)
+        format!("FDL {} {} {} {} {} {} {} {} {} {}", p.addr, p.baud, p.slot, p.hsa, p.gap, p.ttr, p.retry, seed, p.t0, p.tsdr)
     }
 
     /// number of polls that certainly cover the token-lost timeout at period 8/32 slot
@@ -960,7 +966,7 @@ impl<'a> Gen<'a> {
         alpha.extend_from_slice(others);
         let a = *r.pick(&alpha);
         let b = *r.pick(&alpha);
-        let body = match r.below(12) {
+        let body = match r.below(13) {
             0..=3 => tok(a, b),
             4 => tok(p.addr, b),
             5 => sreq(a & 127, b & 127),
@@ -968,6 +974,7 @@ impl<'a> Gen<'a> {
             7 => srsp(a & 127, b & 127, r.byte()),
             8 => hex(&[0xE5]),
             9 => data_frame(a & 127, b & 127, FunctionCode::Response { state: ResponseState::Slave, status: ResponseStatus::DataLow }, &r.bytes(3), None, None),
+            12 => data_frame(a & 127, b & 127, req_of_kind(*r.pick(&['R', 'N', 'A', 'H'])), &r.bytes(2), None, None),
             10 => {
                 // garbage / truncated
                 let n = r.range(1, 7) as usize;
